@@ -840,15 +840,14 @@ Proof.
 Qed.
 
 (* ------------------------------------------------------------------ histories *)
-Definition heap_of (st : istate) : heap := fst (fst st).
-Definition root_of (st : istate) : id := snd (fst st).
-Definition stale_of (st : istate) : option (list (string * string)) := snd st.
+Definition heap_of (st : istate) : heap := fst st.
+Definition root_of (st : istate) : id := snd st.
 
-Lemma step_refines d st t o : abs d (heap_of st) (root_of st) = Some t -> stale_of st = None -> inplace_edges o = false ->
+Lemma step_refines d st t o : abs d (heap_of st) (root_of st) = Some t ->
   abs d (heap_of (fst (stepI d st o))) (root_of (fst (stepI d st o))) = Some (fst (stepS d t o)) /\
-  stale_of (fst (stepI d st o)) = None /\ snd (stepI d st o) = snd (stepS d t o).
+  snd (stepI d st o) = snd (stepS d t o).
 Proof.
-  destruct st as [[h r] stale]. unfold heap_of, root_of, stale_of. cbn [fst snd]. intros H -> G.
+  destruct st as [h r]. unfold heap_of, root_of. cbn [fst snd]. intros H.
   destruct o as [pat op var v|s tg upd|inpl adds es|nv ev]; cbn [stepI stepS].
   - pose proof (update_var_equiv d r h t pat op var v H) as U. destruct (update_var d r h pat op var v).
     + destruct U as (t' & -> & ?). cbn. auto.
@@ -857,27 +856,22 @@ Proof.
     + destruct U as (t' & -> & ?). cbn. auto.
     + rewrite U. cbn. auto.
   - pose proof (update_template_equiv d r h t inpl adds es H) as U. destruct (update_template d r h inpl adds es) as [[h' r']|].
-    + destruct U as (t' & -> & ?). cbn. repeat split; try assumption.
-      destruct inpl; [|reflexivity]. destruct es; [reflexivity|discriminate].
+    + destruct U as (t' & -> & ?). cbn. auto.
     + rewrite U. cbn. auto.
-  - cbn. repeat split; try assumption. now apply observe_equiv.
+  - cbn. split; [assumption|]. now apply observe_equiv.
 Qed.
-Theorem history_refines d : forall ops st t, abs d (heap_of st) (root_of st) = Some t -> stale_of st = None ->
-  no_inplace_edge_template ops = true ->
+Theorem history_refines d : forall ops st t, abs d (heap_of st) (root_of st) = Some t ->
   abs d (heap_of (fst (runI d st ops))) (root_of (fst (runI d st ops))) = Some (fst (runS d t ops)) /\
   snd (runI d st ops) = snd (runS d t ops).
 Proof.
-  induction ops as [|o ops IH]; intros st t H Hs G; cbn; [auto|].
-  unfold no_inplace_edge_template in G. cbn in G. apply negb_true_iff in G. apply orb_false_iff in G as [G1 G2].
-  destruct (step_refines d st t o H Hs G1) as (Ha & Hst & Ho).
+  induction ops as [|o ops IH]; intros st t H; cbn; [auto|].
+  destruct (step_refines d st t o H) as (Ha & Ho).
   destruct (stepI d st o) as [s1 out]. destruct (stepS d t o) as [t1 out']. cbn in *. subst out'.
-  assert (G2' : no_inplace_edge_template ops = true) by (unfold no_inplace_edge_template; now rewrite G2).
-  destruct (IH s1 t1 Ha Hst G2') as (Hb & Hc). destruct (runI d s1 ops) as [s2 outs]. destruct (runS d t1 ops) as [t2 outs'].
+  destruct (IH s1 t1 Ha) as (Hb & Hc). destruct (runI d s1 ops) as [s2 outs]. destruct (runS d t1 ops) as [t2 outs'].
   cbn in *. subst. auto.
 Qed.
-Corollary history_outputs d r ops h t : abs d h r = Some t -> no_inplace_edge_template ops = true ->
-  snd (runI d (init_state h r) ops) = snd (runS d t ops).
-Proof. intros H G. apply (history_refines d ops (init_state h r) t H eq_refl G). Qed.
+Corollary history_outputs d r ops h t : abs d h r = Some t -> snd (runI d (init_state h r) ops) = snd (runS d t ops).
+Proof. intros H. apply (history_refines d ops (init_state h r) t H). Qed.
 
 (* ------------------------------------------------------------------ the frame property of the specification:
    a functional update at path n changes the node at n and no other (first-match dictionaries).
